@@ -32,7 +32,9 @@ mod wdog;
 fn main() {
     let args = Args::parse();
     let which = args.positional.first().cloned().unwrap_or_default();
-    let mut rep = Report::new(&which);
+    // `--as CNN`: a monitor that also decides part of another property reports under that id
+    let label = args.get("as").map(|s| s.to_string()).unwrap_or_else(|| which.clone());
+    let mut rep = Report::new(&label);
     // A panic that escapes a monitor (inside mmtk-core during a legal call, or an internal
     // consistency assertion of the monitor tripping over what mmtk returned) is reported as a
     // violation with the panic location as its signature, not as a harness failure.
